@@ -1,8 +1,91 @@
 (* Property C09 -- change notification contract and freshness of derived state.  Only statements and [exact]; proofs live in
-   Proofs/SymCoreEvents*.v. *)
-From PG Require Import Common.Tactics Model.SymCoreDefs Model.SymCoreOps Model.SymCoreEvents Proofs.SymCoreEventsBase.
+   Proofs/SymCoreEvents*.v.  Vocabulary (Model/SymCoreEvents.v): [step_trace q st o] is the trace of the call [o] started in the
+   forest [st] -- one [TW st' cid] per write of the container [cid] ([st']: the forest right after it), one [TN st' ups stop] per call
+   of Symbolic._notify_field_updates with the FieldUpdates [ups]; [events_of] turns the notifications of a trace into the log of
+   delivered events (receiver id, its path, payload = relative path -> update).  The state and outcome of the call are SymCore.step. *)
+From PG Require Import Common.Tactics Model.SymCoreDefs Model.SymCoreOps Model.SymCoreSpec Model.SymCoreEvents
+     Proofs.SymCoreBase Proofs.SymCoreWF Proofs.SymCoreWFOps Proofs.SymCoreIds
+     Proofs.SymCoreEventsBase Proofs.SymCoreEventsDeliver Proofs.SymCoreEventsStep Proofs.SymCoreEventsWF
+     Proofs.SymCoreEventsOrder Proofs.SymCoreEventsTheorems Proofs.SymCoreEventsExamples.
 From Coq Require Import NArith.
-(* inside a notifications-disabled scope no change event is delivered, whatever the operation *)
+
+(* ---- silence ---------------------------------------------------------------------------------------------------------------------- *)
+(* inside a notifications-disabled scope no change event is delivered, whatever the operation, the forest, the arguments *)
 Theorem C09_silent_scope : forall q st o, notify_on (o_scope o) = false -> events_of (step_trace q st o) = [].
 Proof. exact silent_scope. Qed.
 Print Assumptions C09_silent_scope.
+(* the caller asks to skip: Dict.update / |= (which rebind with skip_notification=True) and rebind(..., skip_notification=True) *)
+Theorem C09_silent_update : forall q st o kvs, o_op o = DUpdate kvs \/ o_op o = DIOr kvs -> events_of (step_trace q st o) = [].
+Proof. exact update_is_silent. Qed.
+Print Assumptions C09_silent_update.
+Theorem C09_silent_skip : forall q st sc ps pvs np, events_of (snd (stepx q st sc ps pvs (Some true) np)) = [].
+Proof. exact skip_is_silent. Qed.
+Print Assumptions C09_silent_skip.
+
+(* ---- exactly once ----------------------------------------------------------------------------------------------------------------- *)
+(* one call, at most one notification (the last thing the call does) ... *)
+Theorem C09_one_notification_per_call : forall q st o, single (step_trace q st o).
+Proof. exact step_trace_single. Qed.
+Print Assumptions C09_one_notification_per_call.
+(* ... so nobody hears about one call twice: any operation, any scope, any forest *)
+Theorem C09_exactly_once : forall q st o, NoDup (map ev_id (events_of (step_trace q st o))).
+Proof. exact step_once. Qed.
+Print Assumptions C09_exactly_once.
+(* who hears: with [st'] the forest right after the writes and [ups] the updates of the call, the receivers are exactly the observing
+   nodes among [affected st' ups] ... *)
+Theorem C09_receivers_exact : forall q st o st' ups i, WFI st -> In (TN st' ups None) (step_trace q st o) ->
+  (In i (map ev_id (events_of (step_trace q st o))) <->
+   exists n, In n (affected st' ups) /\ nid0 n = i /\ observes n = true).
+Proof. exact step_who. Qed.
+Print Assumptions C09_receivers_exact.
+(* ... and [affected] is: every written container and every container it is (actually) stored in, nothing else *)
+Theorem C09_affected_are_the_ancestors : forall st ups n, wfs st ->
+  (In n (affected st ups) <->
+   exists u r pre rest, In u ups /\ locate st (u_tid u) = Some (r, pre ++ rest) /\ get_at st (r, pre) = Some n).
+Proof. exact affected_are_the_ancestors. Qed.
+Print Assumptions C09_affected_are_the_ancestors.
+(* every forest mentioned by a trace is well-formed (one parent, true path, no node twice), so the two statements compose *)
+Theorem C09_trace_states_wf : forall q st o, WFI st -> trace_ok (step_trace q st o).
+Proof. exact step_trace_ok. Qed.
+Print Assumptions C09_trace_states_wf.
+(* no notification, no event *)
+Theorem C09_no_notification_no_event : forall t, (forall st ups stop, ~ In (TN st ups stop) t) -> events_of t = [].
+Proof. exact no_tn_no_events. Qed.
+Print Assumptions C09_no_notification_no_event.
+
+(* ---- children before parents --------------------------------------------------------------------------------------------------------- *)
+(* in delivery order no receiver is stored above a later one: no later path is a proper extension of an earlier one.  Python's sorted()
+   over KeyPaths is modelled by an insertion sort, which agrees with it where the key comparison is a consistent order: on simple keys
+   (ints 0..9, strings not starting with a digit or sign -- Example batch_simple) *)
+Theorem C09_children_first : forall q st o,
+  (forall st' ups stop, In (TN st' ups stop) (step_trace q st o) -> Forall (fun n => simple_path (npth n)) (affected st' ups)) ->
+  children_first (map ev_path (events_of (step_trace q st o))).
+Proof. exact step_children_first. Qed.
+Print Assumptions C09_children_first.
+
+(* ---- exact payload ------------------------------------------------------------------------------------------------------------------------ *)
+(* every delivered event belongs to an observing node [m] of [affected]; it carries m's path and exactly [payload_spec st' ups m]: the
+   updates whose container is m or lies below m, each keyed by its path relative to m, in the order of the updates *)
+Theorem C09_payload_exact : forall q st o st' ups e, WFI st -> In (TN st' ups None) (step_trace q st o) ->
+  In e (events_of (step_trace q st o)) ->
+  exists m, In m (affected st' ups) /\ observes m = true /\
+            ev_id e = nid0 m /\ ev_path e = npth m /\ ev_payload e = payload_spec st' ups m.
+Proof. exact step_payload. Qed.
+Print Assumptions C09_payload_exact.
+Theorem C09_relative_path : forall m u pre rest k, npth m = pre -> u_path u = pre ++ rest ++ [k] -> rel_path m u = rest ++ [k].
+Proof. exact relative_path_exact. Qed.
+Print Assumptions C09_relative_path.
+(* an update names the written container and key, and carries what the forest held there before and holds there after the write *)
+Theorem C09_update_reads_the_states : forall st st' cp ky rv cid kd pa cpath cfl its u,
+  get_at st cp = Some (Node cid kd pa cpath cfl its) -> In u (upd_of st st' cp ky rv) ->
+  u_tid u = cid /\ exists k', u_path u = cpath ++ [k'] /\ u_new u = item_at st' cp k' /\
+                              (u_old u = item_at st cp k' \/ u_old u = Leaf LMissing).
+Proof. exact update_reads_the_states. Qed.
+Print Assumptions C09_update_reads_the_states.
+(* open finding C09/spurious/reset-to-default/unchanged-field: a reset of a field that already holds its default changes nothing and is
+   nevertheless delivered as an update whose old value is its new value *)
+Theorem C09_spurious_refuted :
+  fst (step q0 st_obj reset_x) = st_obj /\
+  exists e u, events_of (step_trace q0 st_obj reset_x) = [e] /\ ev_payload e = [([kx], u)] /\ u_old u = u_new u.
+Proof. exact spurious_refuted. Qed.
+Print Assumptions C09_spurious_refuted.
